@@ -371,6 +371,7 @@ def run(prop_id, tier, seed, replay_file=None, jobs=None):
 
     # -- 2. generated search
     if not replay_file:
+        shutil.rmtree(os.path.join(replay_dir, 'found'), ignore_errors=True)
         shards = mod.shards(tier, seed)
         tasks = [('shard', mod_name, sh, tier, seed, open_patterns)
                  for sh in shards]
